@@ -94,51 +94,32 @@ end LunarVerif.C08
 
 namespace LunarVerif.C08
 
-/-! ### `Restore()` as written -/
-
 theorem store_nofault (d : Disk) (p : Path) (c : Bytes) : store false d p c = (d.write p c, true) := rfl
 theorem store_fault (d : Disk) (p : Path) (c : Bytes) : store true d p c = (d.remove p, false) := rfl
 
-/-- Writing back what is already there changes nothing. -/
-theorem storeAll_noop (env : Env) (hnf : ∀ p, env.plan (.restoreStore p) = false) (d0 : Disk) :
-    ∀ (L : List (Path × Bytes)) (d : Disk), (∀ e ∈ L, d0.get e.1 = some e.2) →
-      (∀ q, d.get q = d0.get q) →
-      (storeAll env d L).2 = true ∧ ∀ q, (storeAll env d L).1.get q = d0.get q := by
-  intro L
-  induction L with
-  | nil => intro d _ hd; exact ⟨rfl, hd⟩
-  | cons e rest ih =>
-    intro d hL hd
-    obtain ⟨p, c⟩ := e
-    unfold storeAll
-    rw [hnf p, store_nofault]
-    simp only [if_true]
-    apply ih
-    · intro e he; exact hL e (List.mem_cons_of_mem _ he)
-    · intro q
-      rw [Disk.get_write]
-      by_cases hq : q = p
-      · subst hq
-        have := hL (q, c) List.mem_cons_self
-        simp [this]
-      · simp [hq, hd q]
+/-! ### Environment / state well-formedness -/
 
-theorem mem_getDiff_snapshot (d b : Disk) (e : Path × Bytes) (h : e ∈ getDiff (snapshot d) b) : e ∈ d := by
-  unfold getDiff snapshot at h
-  exact (List.mem_filter.mp (List.mem_filter.mp h).1).1
+structure Env.WF (env : Env) : Prop where
+  /-- `fs.files` is the gateway configuration and the USER metrics file. -/
+  cleanOrder : ∀ p, p ∈ env.cleanOrder ↔ (p = .gateway ∨ p = .userMetrics)
+  /-- map iteration visits exactly the keys. -/
+  restoreOrder : ∀ (L : List Path) (p : Path), p ∈ env.restoreOrder L ↔ p ∈ L
+  /-- `validates` / `metricsOk` look at the tree only through its contents. -/
+  ext : ∀ a b : Disk, (∀ p, a.get p = b.get p) →
+    env.validates a = env.validates b ∧ env.metricsOk a = env.metricsOk b
 
-/-- F08a, general form: whatever the backup, a `Restore()` without store faults leaves every file as it is. -/
-theorem restore_noop (env : Env) (backup d : Disk) (hwf : d.WF)
-    (hnf : ∀ p, env.plan (.restoreStore p) = false) :
-    ∀ q, (restore env backup d).1.get q = d.get q := by
-  intro q
-  unfold restore
-  by_cases hr : env.plan .restoreRead = true
-  · simp [hr]
-  · simp only [hr]
-    refine (storeAll_noop env hnf d _ d ?_ (fun _ => rfl)).2 q
-    intro e he
-    exact Disk.get_of_mem d hwf e.1 e.2 (mem_getDiff_snapshot d backup e he)
+/-- No fault inside `Restore()` nor in the pre-switch part of the reload that follows it. -/
+structure Env.RestoreFaultFree (env : Env) : Prop where
+  read : env.plan .restoreRead = false
+  store : ∀ p, env.plan (.restoreStore p) = false
+  validate2 : env.plan (.validate 2) = false
+  init2 : env.plan (.initialize 2) = false
+
+/-- The running configuration is valid and the engine was loaded from the tree on disk. -/
+structure State.WF (env : Env) (st : State) : Prop where
+  valid : env.validates st.disk = true
+  metrics : env.metricsOk st.disk = true
+  sync : ∀ p, st.engine.probe p = st.disk.get p
 
 /-! ### Saving the payload -/
 
@@ -148,46 +129,22 @@ def overlay (d : Disk) (ws : List (Path × Bytes)) (p : Path) : Option Bytes :=
   | some c => some c
   | none => d.get p
 
-theorem saveTarget_eq (d : Disk) (p : Path)
-    (h : p ≠ .userMetrics ∨ (d.get .userMetrics).isSome = true) : saveTarget d p = p := by
-  unfold saveTarget
-  by_cases hp : p = .userMetrics
-  · rcases h with h | h
-    · exact absurd hp h
-    · simp [hp, h]
-  · simp [hp]
-
 theorem saveAll_get (env : Env) :
-    ∀ (ws : List (Path × Bytes)) (d : Disk),
-      (Path.userMetrics ∉ ws.map Prod.fst ∨ (d.get .userMetrics).isSome = true) →
-      (saveAll env d ws).2 = true →
+    ∀ (ws : List (Path × Bytes)) (d : Disk), (saveAll env d ws).2 = true →
       ∀ p, (saveAll env d ws).1.get p = overlay d ws p := by
   intro ws
   induction ws with
-  | nil => intro d _ _ p; rfl
+  | nil => intro d _ p; rfl
   | cons e rest ih =>
-    intro d hum hok p
+    intro d hok p
     obtain ⟨q, c⟩ := e
-    have htgt : saveTarget d q = q := by
-      apply saveTarget_eq
-      rcases hum with h | h
-      · left; intro e; apply h; simp [e]
-      · right; exact h
     unfold saveAll at hok ⊢
-    rw [htgt] at hok ⊢
     by_cases hf : env.plan (.save q) = true
     · rw [hf, store_fault] at hok; simp at hok
     · have hf' : env.plan (.save q) = false := by simpa using hf
       rw [hf', store_nofault] at hok ⊢
       simp only [if_true] at hok ⊢
-      have hum' : Path.userMetrics ∉ rest.map Prod.fst ∨
-          ((d.write q c).get .userMetrics).isSome = true := by
-        rcases hum with h | h
-        · left; intro hm; apply h; simp only [List.map_cons, List.mem_cons]; right; exact hm
-        · right
-          rw [Disk.get_write]
-          by_cases hq : Path.userMetrics = q <;> simp [hq, h]
-      rw [ih (d.write q c) hum' hok p]
+      rw [ih (d.write q c) hok p]
       unfold overlay
       simp only [lastWrite]
       cases hl : lastWrite rest p with
@@ -198,6 +155,34 @@ theorem saveAll_get (env : Env) :
         · subst hq; simp
         · have : ¬ p = q := fun e => hq e.symm
           simp [hq, this]
+
+theorem not_covered_iff (q : Path) : q.covered = false ↔ q = .defaultMetrics := by
+  cases q <;> simp [Path.covered]
+
+theorem saveAll_uncovered (env : Env) :
+    ∀ (ws : List (Path × Bytes)) (d : Disk), Path.defaultMetrics ∉ ws.map Prod.fst →
+      ∀ q, q.covered = false → (saveAll env d ws).1.get q = d.get q := by
+  intro ws
+  induction ws with
+  | nil => intro d _ q _; rfl
+  | cons e rest ih =>
+    intro d hdm q hq
+    obtain ⟨p, c⟩ := e
+    have hqp : ¬ q = p := by
+      intro e; subst e
+      apply hdm
+      rw [(not_covered_iff q).mp hq]
+      simp
+    have hrest : Path.defaultMetrics ∉ rest.map Prod.fst := fun h => hdm (by simp [h])
+    unfold saveAll
+    by_cases hf : env.plan (.save p) = true
+    · rw [hf, store_fault]
+      simp [Disk.get_remove, hqp]
+    · have hf' : env.plan (.save p) = false := by simpa using hf
+      rw [hf', store_nofault]
+      simp only [if_true]
+      rw [ih _ hrest q hq, Disk.get_write]
+      simp [hqp]
 
 theorem parse_some (items : List Item) :
     ∀ parsed, parse items = some parsed →
@@ -233,14 +218,6 @@ theorem parse_none_of_mem (items : List Item) (i : Item) (hi : i ∈ items) (hc 
     · rw [ih h]
       cases j.content <;> rfl
 
-theorem not_mem_of_hasMetricsItem_false (items : List Item)
-    (h : hasMetricsItem (some items) = false) : Path.userMetrics ∉ itemPaths items := by
-  unfold hasMetricsItem at h
-  simp only [List.any_eq_false, decide_eq_true_eq] at h
-  intro hm
-  obtain ⟨i, hi, he⟩ := List.mem_map.mp hm
-  exact h i hi he
-
 /-! ### `CleanAll` -/
 
 theorem cleanFiles_get (env : Env) :
@@ -261,281 +238,42 @@ theorem cleanFiles_get (env : Env) :
       · subst hp; simp
       · by_cases hr : p ∈ rest <;> simp [hp, hr]
 
-/-- `fs.files` is the gateway configuration and the USER metrics file. -/
-def Env.CleanOrderOk (env : Env) : Prop :=
-  ∀ p, p ∈ env.cleanOrder ↔ (p = .gateway ∨ p = .userMetrics)
+theorem cleanFiles_other (env : Env) :
+    ∀ (L : List Path) (d : Disk) (q : Path), q ∉ L → (cleanFiles env d L).1.get q = d.get q := by
+  intro L
+  induction L with
+  | nil => intro d q _; rfl
+  | cons p rest ih =>
+    intro d q hq
+    simp only [List.mem_cons, not_or] at hq
+    unfold cleanFiles
+    by_cases hf : env.plan (.cleanRemove p) = true
+    · simp [hf]
+    · have hf' : env.plan (.cleanRemove p) = false := by simpa using hf
+      simp only [hf', Bool.false_eq_true, if_false]
+      rw [ih _ q hq.2, Disk.get_remove]
+      simp [hq.1]
 
-theorem cleanAll_get (env : Env) (hco : env.CleanOrderOk) (d : Disk) (hok : (cleanAll env d).2 = true) :
+theorem cleanAll_get (env : Env) (hwf : env.WF) (d : Disk) (hok : (cleanAll env d).2 = true) :
     ∀ p, (cleanAll env d).1.get p = if p.covered then none else d.get p := by
   intro p
   unfold cleanAll at hok ⊢
   rw [cleanFiles_get env _ _ hok p, Disk.get_filter_key (fun k => !k.inDirs)]
-  have := hco p
+  have := hwf.cleanOrder p
   cases p <;> simp [Path.covered, Path.inDirs] at this ⊢ <;> simp [this]
 
-/-! ### `reloadFlows` -/
+/-- `CleanAll` — finished or not — never touches anything outside its scope. -/
+theorem cleanAll_uncovered (env : Env) (hwf : env.WF) (d : Disk) :
+    ∀ q, q.covered = false → (cleanAll env d).1.get q = d.get q := by
+  intro q hq
+  have hq' := (not_covered_iff q).mp hq
+  subst hq'
+  unfold cleanAll
+  rw [cleanFiles_other env _ _ _ (by rw [hwf.cleanOrder]; simp),
+      Disk.get_filter_key (fun k => !k.inDirs)]
+  simp [Path.inDirs]
 
-theorem reload_mid_nogate (env : Env) (r : Nat) (d : Disk) (e : Engine) (mid : List Engine) :
-    (reload env r false d e mid).mid = mid := by
-  unfold reload
-  simp only [Bool.false_eq_true, if_false]
-  split
-  · rfl
-  · split
-    · rfl
-    · split
-      · rfl
-      · split <;> rfl
-
-theorem reload_ok_engine (env : Env) (r : Nat) (g : Bool) (d : Disk) (e : Engine) (mid : List Engine)
-    (h : (reload env r g d e mid).ok = true) : (reload env r g d e mid).engine = .ready d := by
-  unfold reload at h ⊢
-  simp only at h ⊢
-  by_cases h1 : (env.plan (.validate r) || !env.validates d) = true
-  · rw [if_pos h1] at h; cases h
-  · rw [if_neg h1] at h ⊢
-    by_cases h2 : env.plan (.initialize r) = true
-    · rw [if_pos h2] at h; cases h
-    · rw [if_neg h2] at h ⊢
-      by_cases h3 : (env.plan (.haproxy r) && env.hasEndpoints d) = true
-      · rw [if_pos h3] at h; cases h
-      · rw [if_neg h3] at h ⊢
-        by_cases h4 : (env.plan (.metrics r) || !env.metricsOk d) = true
-        · rw [if_pos h4] at h; cases h
-        · rw [if_neg h4]
-
-end LunarVerif.C08
-
-namespace LunarVerif.C08
-
-/-! ### From handler outcomes to the Spec predicate -/
-
-theorem early_holds (probes : List Path) (st : State) (req : Req) (r : Result)
-    (hs : r.status ≠ 200) (hd : r.disk = st.disk) (he : r.engine = st.engine) (hm : r.mid = []) :
-    holds (observe probes st req r) = true := by
-  simp [holds, observe, hs, hd, he, hm, sameDisk_refl]
-
-theorem finding_late {V : Type} (o : Obs V) (hput : o.methodPut = true) (hs : o.status ≠ 200)
-    (hl : lateFailure o = true) : finding o ≠ none := by
-  unfold finding
-  rw [if_neg (by simp [hput]), if_pos hs, if_pos hl]
-  cases o.ep <;> simp
-
-theorem late_finding (probes : List Path) (st : State) (req : Req) (r : Result)
-    (hput : req.methodPut = true) (hs : r.status ≠ 200)
-    (hp : r.phase = .cleanup ∨ r.phase = .save ∨ r.phase = .reload) :
-    finding (observe probes st req r) ≠ none := by
-  apply finding_late _ hput hs
-  unfold lateFailure
-  have hs' : (observe probes st req r).status ≠ 200 := hs
-  have hp' : (observe probes st req r).phase = r.phase := rfl
-  rw [hp']
-  rcases hp with h | h | h <;> simp [hs', h]
-
-theorem finding_none_methodPut {V : Type} (o : Obs V) (h : finding o = none) : o.methodPut = true := by
-  unfold finding at h
-  cases hm : o.methodPut with
-  | true => rfl
-  | false => simp [hm] at h
-
-theorem success_holds (probes : List Path) (st : State) (req : Req) (r : Result) (items : List Item)
-    (hb : req.body = .payload items) (hs : r.status = 200)
-    (hgate : req.gate = false → r.mid = [])
-    (hdisk : metricsMismatch (observe probes st req r) = false →
-      ∀ p, r.disk.get p = expectedGet req.ep items st.disk p)
-    (hfind : finding (observe probes st req r) = none) :
-    holds (observe probes st req r) = true := by
-  have hput := finding_none_methodPut _ hfind
-  unfold finding at hfind
-  simp only [hput, Bool.not_true, Bool.false_eq_true, if_false] at hfind
-  have hs' : (observe probes st req r).status = 200 := hs
-  rw [if_neg (by simp [hs'])] at hfind
-  by_cases hmm : metricsMismatch (observe probes st req r) = true
-  · simp [hmm] at hfind
-  · have hmm' : metricsMismatch (observe probes st req r) = false := by simpa using hmm
-    simp only [hmm', Bool.false_eq_true, if_false] at hfind
-    have hg : req.gate = false := by
-      cases hgt : req.gate with
-      | false => rfl
-      | true => simp [observe, hgt] at hfind
-    have hmid := hgate hg
-    have hd := hdisk hmm'
-    unfold holds
-    rw [if_neg (by simp [hs'])]
-    simp only [observe, hmid, List.map_nil, List.all_nil, Bool.true_and]
-    unfold successDisk
-    simp only [hb, bodyItems, List.all_eq_true, decide_eq_true_eq]
-    intro p _
-    exact hd p
-
-theorem statusOf_put (req : Req) (h : req.methodPut = true) (s : Nat) : statusOf req s = s := by
-  simp [statusOf, h]
-
-/-- For `/configuration`: absence of a metrics mismatch means the metrics item (if any) goes to the user file. -/
-theorem no_mismatch_configuration (probes : List Path) (st : State) (req : Req) (r : Result)
-    (items : List Item) (hb : req.body = .payload items) (hep : req.ep = .configuration)
-    (h : metricsMismatch (observe probes st req r) = false) :
-    Path.userMetrics ∉ itemPaths items ∨ (st.disk.get .userMetrics).isSome = true := by
-  unfold metricsMismatch at h
-  simp only [observe, hb, bodyItems, hep] at h
-  by_cases hm : hasMetricsItem (some items) = true
-  · right
-    simp only [hm, Bool.true_and, Bool.or_eq_false_iff] at h
-    cases hg : st.disk.get .userMetrics with
-    | none => simp [hg] at h
-    | some _ => rfl
-  · left
-    exact not_mem_of_hasMetricsItem_false items (by simpa using hm)
-
-theorem no_mismatch_applyFlows (probes : List Path) (st : State) (req : Req) (r : Result)
-    (items : List Item) (hb : req.body = .payload items) (hep : req.ep = .applyFlows)
-    (h : metricsMismatch (observe probes st req r) = false) :
-    Path.userMetrics ∉ itemPaths items := by
-  unfold metricsMismatch at h
-  simp only [observe, hb, bodyItems, hep] at h
-  apply not_mem_of_hasMetricsItem_false
-  simpa using h
-
-end LunarVerif.C08
-
-namespace LunarVerif.C08
-
-theorem partial_configuration (env : Env) (probes : List Path) (st : State) (req : Req)
-    (hep : req.ep = .configuration)
-    (hnone : finding (observe probes st req (handleConfiguration env st req)) = none) :
-    holds (observe probes st req (handleConfiguration env st req)) = true := by
-  have hput : req.methodPut = true := finding_none_methodPut _ hnone
-  have hst : ∀ s, statusOf req s = s := statusOf_put req hput
-  cases hb : req.body with
-  | badJson =>
-    have hr : handleConfiguration env st req = ⟨400, .decode, st.disk, st.engine, []⟩ := by
-      simp [handleConfiguration, hb, hst]
-    rw [hr]; exact early_holds _ _ _ _ (by simp) rfl rfl rfl
-  | null =>
-    have hr : handleConfiguration env st req = ⟨400, .nodata, st.disk, st.engine, []⟩ := by
-      simp [handleConfiguration, hb, hst]
-    rw [hr]; exact early_holds _ _ _ _ (by simp) rfl rfl rfl
-  | payload items =>
-    by_cases hbk : env.plan .backupRead = true
-    · have hr : handleConfiguration env st req = ⟨500, .backup, st.disk, st.engine, []⟩ := by
-        simp [handleConfiguration, hb, hst, hbk]
-      rw [hr]; exact early_holds _ _ _ _ (by simp) rfl rfl rfl
-    · have hbk' : env.plan .backupRead = false := by simpa using hbk
-      cases hpr : parse items with
-      | none =>
-        have hr : handleConfiguration env st req = ⟨400, .parse, st.disk, st.engine, []⟩ := by
-          simp [handleConfiguration, hb, hst, hbk', hpr]
-        rw [hr]; exact early_holds _ _ _ _ (by simp) rfl rfl rfl
-      | some parsed =>
-        by_cases hsv : (saveAll env st.disk parsed).2 = true
-        · by_cases hok : (reload env 1 req.gate (saveAll env st.disk parsed).1 st.engine []).ok = true
-          · have hr : handleConfiguration env st req =
-                ⟨200, .ok, (saveAll env st.disk parsed).1,
-                 (reload env 1 req.gate (saveAll env st.disk parsed).1 st.engine []).engine,
-                 (reload env 1 req.gate (saveAll env st.disk parsed).1 st.engine []).mid⟩ := by
-              simp [handleConfiguration, hb, hst, hbk', hpr, hsv, hok]
-            rw [hr] at hnone ⊢
-            apply success_holds probes st req _ items hb rfl _ _ hnone
-            · intro hg
-              simp only [hg]
-              exact reload_mid_nogate env 1 _ _ _
-            · intro hmm p
-              have hum := no_mismatch_configuration probes st req _ items hb hep hmm
-              obtain ⟨hw, hpaths⟩ := parse_some items parsed hpr
-              rw [← hpaths] at hum
-              rw [saveAll_get env parsed st.disk hum hsv p, hep]
-              unfold overlay expectedGet
-              rw [hw]
-              rfl
-          · exfalso
-            apply late_finding probes st req (handleConfiguration env st req) hput _ _ hnone
-            · simp [handleConfiguration, hb, hst, hbk', hpr, hsv, hok]
-            · right; right
-              simp [handleConfiguration, hb, hbk', hpr, hsv, hok]
-        · exfalso
-          apply late_finding probes st req (handleConfiguration env st req) hput _ _ hnone
-          · simp [handleConfiguration, hb, hst, hbk', hpr, hsv]
-          · right; left
-            simp [handleConfiguration, hb, hbk', hpr, hsv]
-
-theorem partial_applyFlows (env : Env) (hco : env.CleanOrderOk) (probes : List Path) (st : State)
-    (req : Req) (hep : req.ep = .applyFlows)
-    (hnone : finding (observe probes st req (handleApplyFlows env st req)) = none) :
-    holds (observe probes st req (handleApplyFlows env st req)) = true := by
-  have hput : req.methodPut = true := finding_none_methodPut _ hnone
-  have hst : ∀ s, statusOf req s = s := statusOf_put req hput
-  cases hb : req.body with
-  | badJson =>
-    have hr : handleApplyFlows env st req = ⟨400, .decode, st.disk, st.engine, []⟩ := by
-      simp [handleApplyFlows, hb, hst]
-    rw [hr]; exact early_holds _ _ _ _ (by simp) rfl rfl rfl
-  | null =>
-    have hr : handleApplyFlows env st req = ⟨400, .nodata, st.disk, st.engine, []⟩ := by
-      simp [handleApplyFlows, hb, hst]
-    rw [hr]; exact early_holds _ _ _ _ (by simp) rfl rfl rfl
-  | payload items =>
-    cases hpr : parse items with
-    | none =>
-      have hr : handleApplyFlows env st req = ⟨400, .parse, st.disk, st.engine, []⟩ := by
-        simp [handleApplyFlows, hb, hst, hpr]
-      rw [hr]; exact early_holds _ _ _ _ (by simp) rfl rfl rfl
-    | some parsed =>
-      by_cases hcl : (cleanAll env st.disk).2 = true
-      · by_cases hsv : (saveAll env (cleanAll env st.disk).1 parsed).2 = true
-        · by_cases hok : (reload env 1 req.gate (saveAll env (cleanAll env st.disk).1 parsed).1
-              st.engine []).ok = true
-          · have hr : handleApplyFlows env st req =
-                ⟨200, .ok, (saveAll env (cleanAll env st.disk).1 parsed).1,
-                 (reload env 1 req.gate (saveAll env (cleanAll env st.disk).1 parsed).1 st.engine []).engine,
-                 (reload env 1 req.gate (saveAll env (cleanAll env st.disk).1 parsed).1 st.engine []).mid⟩ := by
-              simp [handleApplyFlows, hb, hst, hpr, hcl, hsv, hok]
-            rw [hr] at hnone ⊢
-            apply success_holds probes st req _ items hb rfl _ _ hnone
-            · intro hg
-              simp only [hg]
-              exact reload_mid_nogate env 1 _ _ _
-            · intro hmm p
-              have hum := no_mismatch_applyFlows probes st req _ items hb hep hmm
-              obtain ⟨hw, hpaths⟩ := parse_some items parsed hpr
-              rw [← hpaths] at hum
-              rw [saveAll_get env parsed _ (Or.inl hum) hsv p, hep]
-              unfold overlay expectedGet
-              rw [hw, cleanAll_get env hco st.disk hcl p]
-              rfl
-          · exfalso
-            apply late_finding probes st req (handleApplyFlows env st req) hput _ _ hnone
-            · simp [handleApplyFlows, hb, hst, hpr, hcl, hsv, hok]
-            · right; right
-              simp [handleApplyFlows, hb, hpr, hcl, hsv, hok]
-        · exfalso
-          apply late_finding probes st req (handleApplyFlows env st req) hput _ _ hnone
-          · simp [handleApplyFlows, hb, hst, hpr, hcl, hsv]
-          · right; left
-            simp [handleApplyFlows, hb, hpr, hcl, hsv]
-      · exfalso
-        apply late_finding probes st req (handleApplyFlows env st req) hput _ _ hnone
-        · simp [handleApplyFlows, hb, hst, hpr, hcl]
-        · left
-          simp [handleApplyFlows, hb, hpr, hcl]
-
-/-- The connection theorem: outside the known-finding classes the Spec predicate holds of every model step. -/
-theorem partial_holds (env : Env) (hco : env.CleanOrderOk) (probes : List Path) (st : State) (req : Req)
-    (hnone : finding (observe probes st req (handle env st req)) = none) :
-    holds (observe probes st req (handle env st req)) = true := by
-  unfold handle at hnone ⊢
-  cases hep : req.ep with
-  | configuration =>
-    simp only [hep] at hnone ⊢
-    exact partial_configuration env probes st req hep hnone
-  | applyFlows =>
-    simp only [hep] at hnone ⊢
-    exact partial_applyFlows env hco probes st req hep hnone
-
-end LunarVerif.C08
-
-namespace LunarVerif.C08
-
-/-! ### The proposed fix -/
+/-! ### `Restore()` -/
 
 def restoredGet (b d : Disk) (q : Path) : Option Bytes :=
   match b.get q with
@@ -584,15 +322,16 @@ theorem snapshot_get (d : Disk) (q : Path) : (snapshot d).get q = if q.covered t
   unfold snapshot
   exact Disk.get_filter_key Path.covered d q
 
-/-- The corrected `Restore()` brings back the backed-up tree, provided nothing outside its scope was touched. -/
-theorem restoreFixed_correct (env : Env) (hrr : env.plan .restoreRead = false)
+/-- `Restore()` brings back the backed-up tree, provided nothing outside its scope was touched and
+    the restore itself does not fail — in whatever order the map is ranged over. -/
+theorem restore_correct (env : Env) (hwf : env.WF) (hrr : env.plan .restoreRead = false)
     (hnf : ∀ p, env.plan (.restoreStore p) = false) (d0 d : Disk)
     (hunc : ∀ q, q.covered = false → d.get q = d0.get q) :
-    ∀ q, (restoreFixed env (snapshot d0) d).1.get q = d0.get q := by
+    ∀ q, (restore env (snapshot d0) d).1.get q = d0.get q := by
   intro q
-  unfold restoreFixed
+  unfold restore
   simp only [hrr, Bool.false_eq_true, if_false]
-  obtain ⟨hok, hget⟩ := storeBackAll_get env hnf (snapshot d0) (snapshot d0).keys d
+  obtain ⟨hok, hget⟩ := storeBackAll_get env hnf (snapshot d0) (env.restoreOrder (snapshot d0).keys) d
   rw [if_pos hok]
   simp only
   rw [Disk.get_filter_key (fun k => !k.covered || ((snapshot d0).get k).isSome), hget q]
@@ -600,7 +339,7 @@ theorem restoreFixed_correct (env : Env) (hrr : env.plan .restoreRead = false)
   | false =>
     have hb : (snapshot d0).get q = none := by rw [snapshot_get, hc]; rfl
     simp only [Bool.not_false, Bool.true_or, if_true]
-    by_cases hk : q ∈ (snapshot d0).keys
+    by_cases hk : q ∈ env.restoreOrder (snapshot d0).keys
     · rw [if_pos hk]; simp [restoredGet, hb, hunc q hc]
     · rw [if_neg hk]; exact hunc q hc
   | true =>
@@ -608,215 +347,329 @@ theorem restoreFixed_correct (env : Env) (hrr : env.plan .restoreRead = false)
     cases hd : d0.get q with
     | none => simp [hb, hd]
     | some c =>
-      have hk : q ∈ (snapshot d0).keys := Disk.mem_keys_of_get _ q c (by rw [hb, hd])
+      have hk : q ∈ env.restoreOrder (snapshot d0).keys :=
+        (hwf.restoreOrder _ q).mpr (Disk.mem_keys_of_get _ q c (by rw [hb, hd]))
       simp [hb, hd, hk, restoredGet]
 
-theorem not_covered_iff (q : Path) : q.covered = false ↔ q = .defaultMetrics := by
-  cases q <;> simp [Path.covered]
+/-! ### `reloadFlows` -/
 
-theorem saveAllFixed_uncovered (env : Env) :
-    ∀ (ws : List (Path × Bytes)) (d : Disk), Path.defaultMetrics ∉ ws.map Prod.fst →
-      ∀ q, q.covered = false → (saveAllFixed env d ws).1.get q = d.get q := by
-  intro ws
-  induction ws with
-  | nil => intro d _ q _; rfl
-  | cons e rest ih =>
-    intro d hdm q hq
-    obtain ⟨p, c⟩ := e
-    have hqp : ¬ q = p := by
-      intro e; subst e
-      apply hdm
-      rw [(not_covered_iff q).mp hq]
-      simp
-    have hrest : Path.defaultMetrics ∉ rest.map Prod.fst := fun h => hdm (by simp [h])
-    unfold saveAllFixed
-    by_cases hf : env.plan (.save p) = true
-    · rw [hf, store_fault]
-      simp [Disk.get_remove, hqp]
-    · have hf' : env.plan (.save p) = false := by simpa using hf
-      rw [hf', store_nofault]
-      simp only [if_true]
-      rw [ih _ hrest q hq, Disk.get_write]
-      simp [hqp]
-
-/-- `validates` / `metricsOk` look at the tree only through its contents. -/
-def Env.Extensional (env : Env) : Prop :=
-  ∀ a b : Disk, (∀ p, a.get p = b.get p) →
-    env.validates a = env.validates b ∧ env.metricsOk a = env.metricsOk b
-
-theorem reload_clean (env : Env) (r : Nat) (g : Bool) (d : Disk) (e : Engine) (mid : List Engine)
-    (hv : env.validates d = true) (hm : env.metricsOk d = true)
-    (h1 : env.plan (.validate r) = false) (h2 : env.plan (.initialize r) = false)
-    (h3 : env.plan (.haproxy r) = false) (h4 : env.plan (.metrics r) = false) :
-    (reload env r g d e mid).engine = .ready d ∧ (reload env r g d e mid).ok = true := by
+/-- The three ways a reload can end. -/
+theorem reload_cases (env : Env) (r : Nat) (g : Bool) (d : Disk) (e : Engine) (mid : List Engine) :
+    ((reload env r g d e mid).ok = false ∧ (reload env r g d e mid).engine = e ∧
+      (reload env r g d e mid).mid = mid) ∨
+    ((reload env r g d e mid).ok = false ∧ (reload env r g d e mid).engine = .ready d ∧
+      (reload env r g d e mid).mid = mid ++ (if g then [e] else [])) ∨
+    ((reload env r g d e mid).ok = true ∧ (reload env r g d e mid).engine = .ready d ∧
+      (reload env r g d e mid).mid = mid ++ (if g then [e] else []) ∧
+      env.validates d = true ∧ env.metricsOk d = true) := by
   unfold reload
-  simp [hv, hm, h1, h2, h3, h4]
+  simp only
+  by_cases h1 : (env.plan (.validate r) || !env.validates d) = true
+  · rw [if_pos h1]; exact Or.inl ⟨rfl, rfl, rfl⟩
+  · rw [if_neg h1]
+    by_cases h2 : env.plan (.initialize r) = true
+    · rw [if_pos h2]; exact Or.inl ⟨rfl, rfl, rfl⟩
+    · rw [if_neg h2]
+      have hmid : (if g = true then mid ++ [e] else mid) = mid ++ (if g = true then [e] else []) := by
+        cases g <;> simp
+      by_cases h3 : (env.plan (.haproxy r) && env.hasEndpoints d) = true
+      · rw [if_pos h3]; exact Or.inr (Or.inl ⟨rfl, rfl, hmid⟩)
+      · rw [if_neg h3]
+        by_cases h4 : (env.plan (.metrics r) || !env.metricsOk d) = true
+        · rw [if_pos h4]; exact Or.inr (Or.inl ⟨rfl, rfl, hmid⟩)
+        · rw [if_neg h4]
+          refine Or.inr (Or.inr ⟨rfl, rfl, hmid, ?_, ?_⟩)
+          · simp only [Bool.or_eq_true, Bool.not_eq_true', not_or, Bool.not_eq_false] at h1
+            exact h1.2
+          · simp only [Bool.or_eq_true, Bool.not_eq_true', not_or, Bool.not_eq_false] at h4
+            exact h4.2
 
-/-- No fault inside `Restore()` nor in the reload that follows it. -/
-structure Env.RestoreFaultFree (env : Env) : Prop where
-  read : env.plan .restoreRead = false
-  store : ∀ p, env.plan (.restoreStore p) = false
-  validate2 : env.plan (.validate 2) = false
-  init2 : env.plan (.initialize 2) = false
-  haproxy2 : env.plan (.haproxy 2) = false
-  metrics2 : env.plan (.metrics 2) = false
-
-theorem rollback_fixed_aux (env : Env) (hext : env.Extensional) (hff : env.RestoreFaultFree)
-    (st : State) (req : Req) (hput : req.methodPut = true)
-    (hwf : ∀ items, req.body = .payload items → Path.defaultMetrics ∉ itemPaths items)
-    (hv : env.validates st.disk = true) (hm : env.metricsOk st.disk = true)
-    (hsync : ∀ p, st.engine.probe p = st.disk.get p)
-    (hs : (handleConfigurationFixed env st req).status ≠ 200) :
-    (∀ p, (handleConfigurationFixed env st req).disk.get p = st.disk.get p) ∧
-    (∀ p, (handleConfigurationFixed env st req).engine.probe p = st.engine.probe p) := by
-  have hst : ∀ s, statusOf req s = s := statusOf_put req hput
-  cases hb : req.body with
-  | badJson =>
-    have hr : handleConfigurationFixed env st req = ⟨400, .decode, st.disk, st.engine, []⟩ := by
-      simp [handleConfigurationFixed, hb, hst]
-    rw [hr]; exact ⟨fun _ => rfl, fun _ => rfl⟩
-  | null =>
-    have hr : handleConfigurationFixed env st req = ⟨400, .nodata, st.disk, st.engine, []⟩ := by
-      simp [handleConfigurationFixed, hb, hst]
-    rw [hr]; exact ⟨fun _ => rfl, fun _ => rfl⟩
-  | payload items =>
-    by_cases hbk : env.plan .backupRead = true
-    · have hr : handleConfigurationFixed env st req = ⟨500, .backup, st.disk, st.engine, []⟩ := by
-        simp [handleConfigurationFixed, hb, hst, hbk]
-      rw [hr]; exact ⟨fun _ => rfl, fun _ => rfl⟩
-    · have hbk' : env.plan .backupRead = false := by simpa using hbk
-      cases hpr : parse items with
-      | none =>
-        have hr : handleConfigurationFixed env st req = ⟨400, .parse, st.disk, st.engine, []⟩ := by
-          simp [handleConfigurationFixed, hb, hst, hbk', hpr]
-        rw [hr]; exact ⟨fun _ => rfl, fun _ => rfl⟩
-      | some parsed =>
-        have hdm : Path.defaultMetrics ∉ parsed.map Prod.fst := by
-          rw [(parse_some items parsed hpr).2]; exact hwf items hb
-        have hrest : ∀ q, (restoreFixed env (snapshot st.disk) (saveAllFixed env st.disk parsed).1).1.get q
-            = st.disk.get q :=
-          restoreFixed_correct env hff.read hff.store st.disk _
-            (saveAllFixed_uncovered env parsed st.disk hdm)
-        by_cases hsv : (saveAllFixed env st.disk parsed).2 = true
-        · by_cases hok : (reload env 1 req.gate (saveAllFixed env st.disk parsed).1 st.engine []).ok = true
-          · exfalso
-            apply hs
-            simp [handleConfigurationFixed, hb, hst, hbk', hpr, hsv, hok]
-          · have hext' := hext _ _ hrest
-            obtain ⟨he, _⟩ := reload_clean env 2 req.gate
-              (restoreFixed env (snapshot st.disk) (saveAllFixed env st.disk parsed).1).1
-              (reload env 1 req.gate (saveAllFixed env st.disk parsed).1 st.engine []).engine
-              (reload env 1 req.gate (saveAllFixed env st.disk parsed).1 st.engine []).mid
-              (by rw [hext'.1]; exact hv) (by rw [hext'.2]; exact hm)
-              hff.validate2 hff.init2 hff.haproxy2 hff.metrics2
-            have hd : (handleConfigurationFixed env st req).disk =
-                (restoreFixed env (snapshot st.disk) (saveAllFixed env st.disk parsed).1).1 := by
-              simp [handleConfigurationFixed, hb, hbk', hpr, hsv, hok]
-            have heng : (handleConfigurationFixed env st req).engine =
-                .ready (restoreFixed env (snapshot st.disk) (saveAllFixed env st.disk parsed).1).1 := by
-              rw [← he]
-              simp [handleConfigurationFixed, hb, hbk', hpr, hsv, hok]
-            rw [hd, heng]
-            exact ⟨hrest, fun p => by rw [hsync p]; exact hrest p⟩
-        · have hd : (handleConfigurationFixed env st req).disk =
-              (restoreFixed env (snapshot st.disk) (saveAllFixed env st.disk parsed).1).1 := by
-            simp [handleConfigurationFixed, hb, hbk', hpr, hsv]
-          have heng : (handleConfigurationFixed env st req).engine = st.engine := by
-            simp [handleConfigurationFixed, hb, hbk', hpr, hsv]
-          rw [hd, heng]
-          exact ⟨hrest, fun _ => rfl⟩
+/-- The reload after a fault-free restore of a valid tree always reaches the switch. -/
+theorem reload_switches (env : Env) (r : Nat) (g : Bool) (d : Disk) (e : Engine) (mid : List Engine)
+    (hv : env.validates d = true) (h1 : env.plan (.validate r) = false)
+    (h2 : env.plan (.initialize r) = false) :
+    (reload env r g d e mid).engine = .ready d ∧
+    (reload env r g d e mid).mid = mid ++ (if g then [e] else []) := by
+  unfold reload
+  simp only [h1, hv, h2, Bool.not_true, Bool.or_false, Bool.false_eq_true, if_false]
+  have hmid : (if g = true then mid ++ [e] else mid) = mid ++ (if g = true then [e] else []) := by
+    cases g <;> simp
+  split
+  · exact ⟨rfl, hmid⟩
+  · split <;> exact ⟨rfl, hmid⟩
 
 end LunarVerif.C08
 
 namespace LunarVerif.C08
 
-/-! ### What the unchanged handlers do guarantee -/
+/-! ### Outcomes of a request -/
 
-def Phase.early : Phase → Bool
-  | .decode | .nodata | .backup | .parse => true
-  | _ => false
+/-- Not answered 200: tree and behaviour as before; the transactions at the switch points were
+    served by the old engine — unless the request had already switched once (two switch points). -/
+def RolledBack (st : State) (r : Result) : Prop :=
+  r.status ≠ 200 ∧ (∀ p, r.disk.get p = st.disk.get p) ∧
+  (∀ p, r.engine.probe p = st.engine.probe p) ∧
+  ((∀ e ∈ r.mid, e = st.engine) ∨ 2 ≤ r.mid.length)
 
-theorem early_configuration (env : Env) (st : State) (req : Req)
-    (h : (handleConfiguration env st req).phase.early = true) :
-    (handleConfiguration env st req).disk = st.disk ∧ (handleConfiguration env st req).engine = st.engine ∧
-    (handleConfiguration env st req).mid = [] := by
-  cases hb : req.body with
-  | badJson => simp [handleConfiguration, hb]
-  | null => simp [handleConfiguration, hb]
-  | payload items =>
-    by_cases hbk : env.plan .backupRead = true
-    · simp [handleConfiguration, hb, hbk]
-    · have hbk' : env.plan .backupRead = false := by simpa using hbk
-      cases hpr : parse items with
-      | none => simp [handleConfiguration, hb, hbk', hpr]
-      | some parsed =>
-        exfalso
-        by_cases hsv : (saveAll env st.disk parsed).2 = true
-        · by_cases hok : (reload env 1 req.gate (saveAll env st.disk parsed).1 st.engine []).ok = true
-          · simp [handleConfiguration, hb, hbk', hpr, hsv, hok, Phase.early] at h
-          · simp [handleConfiguration, hb, hbk', hpr, hsv, hok, Phase.early] at h
-        · simp [handleConfiguration, hb, hbk', hpr, hsv, Phase.early] at h
+/-- Answered 200, `d` being the tree the saves produced. -/
+def Switched (env : Env) (st : State) (r : Result) (d : Disk) : Prop :=
+  r.status = 200 ∧ r.phase = .ok ∧ r.disk = d ∧ r.engine = .ready d ∧
+  env.validates d = true ∧ env.metricsOk d = true ∧ (∀ e ∈ r.mid, e = st.engine)
 
-theorem early_applyFlows (env : Env) (st : State) (req : Req)
-    (h : (handleApplyFlows env st req).phase.early = true) :
-    (handleApplyFlows env st req).disk = st.disk ∧ (handleApplyFlows env st req).engine = st.engine ∧
-    (handleApplyFlows env st req).mid = [] := by
-  cases hb : req.body with
-  | badJson => simp [handleApplyFlows, hb]
-  | null => simp [handleApplyFlows, hb]
-  | payload items =>
-    cases hpr : parse items with
-    | none => simp [handleApplyFlows, hb, hpr]
-    | some parsed =>
-      exfalso
-      by_cases hcl : (cleanAll env st.disk).2 = true
-      · by_cases hsv : (saveAll env (cleanAll env st.disk).1 parsed).2 = true
-        · by_cases hok : (reload env 1 req.gate (saveAll env (cleanAll env st.disk).1 parsed).1
-              st.engine []).ok = true
-          · simp [handleApplyFlows, hb, hpr, hcl, hsv, hok, Phase.early] at h
-          · simp [handleApplyFlows, hb, hpr, hcl, hsv, hok, Phase.early] at h
-        · simp [handleApplyFlows, hb, hpr, hcl, hsv, Phase.early] at h
-      · simp [handleApplyFlows, hb, hpr, hcl, Phase.early] at h
+theorem mem_ite_singleton (g : Bool) (e x : Engine) (h : x ∈ (if g = true then [e] else [])) : x = e := by
+  cases g <;> simp at h
+  exact h
 
-theorem statusOf_ne_200 (req : Req) (s : Nat) (h : s ≠ 200) : statusOf req s ≠ 200 := by
-  unfold statusOf
-  split
-  · exact h
-  · decide
+theorem saveAndReload_outcome (env : Env) (hwf : env.WF) (hff : env.RestoreFaultFree)
+    (st : State) (hst : st.WF env) (req : Req) (d1 : Disk) (parsed : List (Path × Bytes))
+    (hdm : Path.defaultMetrics ∉ parsed.map Prod.fst)
+    (hunc : ∀ q, q.covered = false → d1.get q = st.disk.get q) :
+    RolledBack st (saveAndReload env st req (snapshot st.disk) d1 parsed) ∨
+    ((saveAll env d1 parsed).2 = true ∧
+      Switched env st (saveAndReload env st req (snapshot st.disk) d1 parsed) (saveAll env d1 parsed).1) := by
+  have hrest : ∀ q, (restore env (snapshot st.disk) (saveAll env d1 parsed).1).1.get q = st.disk.get q :=
+    restore_correct env hwf hff.read hff.store st.disk _
+      (fun q hq => by rw [saveAll_uncovered env parsed d1 hdm q hq]; exact hunc q hq)
+  unfold saveAndReload
+  simp only
+  by_cases hsv : (saveAll env d1 parsed).2 = true
+  · simp only [hsv, Bool.not_true, Bool.false_eq_true, if_false]
+    rcases reload_cases env 1 req.gate (saveAll env d1 parsed).1 st.engine [] with h | h | h
+    · -- failed before the switch
+      obtain ⟨hok, heng, hmid⟩ := h
+      left
+      simp only [hok, Bool.false_eq_true, if_false, heng, hmid]
+      have hext := hwf.ext _ _ hrest
+      obtain ⟨he2, hm2⟩ := reload_switches env 2 req.gate
+        (restore env (snapshot st.disk) (saveAll env d1 parsed).1).1 st.engine []
+        (by rw [hext.1]; exact hst.valid) hff.validate2 hff.init2
+      refine ⟨by simp, hrest, ?_, Or.inl ?_⟩
+      · intro p; simp only; rw [he2, hst.sync p]; exact hrest p
+      · intro e he
+        simp only at he
+        rw [hm2] at he
+        exact mem_ite_singleton req.gate st.engine e (by simpa using he)
+    · -- switched, then failed
+      obtain ⟨hok, heng, hmid⟩ := h
+      left
+      simp only [hok, Bool.false_eq_true, if_false, heng, hmid]
+      have hext := hwf.ext _ _ hrest
+      obtain ⟨he2, hm2⟩ := reload_switches env 2 req.gate
+        (restore env (snapshot st.disk) (saveAll env d1 parsed).1).1
+        (.ready (saveAll env d1 parsed).1) ([] ++ if req.gate = true then [st.engine] else [])
+        (by rw [hext.1]; exact hst.valid) hff.validate2 hff.init2
+      refine ⟨by simp, hrest, ?_, ?_⟩
+      · intro p; simp only; rw [he2, hst.sync p]; exact hrest p
+      · simp only
+        rw [hm2]
+        cases hg : req.gate with
+        | false => left; intro e he; simp at he
+        | true => right; simp
+    · -- success
+      obtain ⟨hok, heng, hmid, hv, hm⟩ := h
+      right
+      refine ⟨by first | exact hsv | trivial, ?_⟩
+      simp only [hok, if_true]
+      refine ⟨rfl, rfl, rfl, heng, hv, hm, ?_⟩
+      intro e he
+      simp only [hmid] at he
+      exact mem_ite_singleton req.gate st.engine e (by simpa using he)
+  · left
+    have hsv' : (saveAll env d1 parsed).2 = false := by simpa using hsv
+    simp only [hsv', Bool.not_false, if_true]
+    exact ⟨by simp, hrest, fun _ => rfl, Or.inl (fun e he => by cases he)⟩
 
-/-- A body that cannot be decoded. -/
-def Body.undecodable : Body → Bool
-  | .badJson => true
-  | .null => true
-  | .payload items => (parse items).isNone
+/-- Unchanged state is a (trivial) roll-back. -/
+theorem rolledBack_of_unchanged (st : State) (s : Nat) (ph : Phase) (hs : s ≠ 200) :
+    RolledBack st ⟨s, ph, st.disk, st.engine, []⟩ :=
+  ⟨hs, fun _ => rfl, fun _ => rfl, Or.inl (fun e he => by cases he)⟩
 
-theorem undecodable_handle (env : Env) (st : State) (req : Req) (h : req.body.undecodable = true) :
-    (handle env st req).status ≠ 200 ∧ (handle env st req).phase.early = true := by
-  have h4 : statusOf req 400 ≠ 200 := statusOf_ne_200 _ _ (by decide)
-  have h5 : statusOf req 500 ≠ 200 := statusOf_ne_200 _ _ (by decide)
+/-- Every request is either rolled back or switched to exactly the payload applied. -/
+theorem handle_outcome (env : Env) (hwf : env.WF) (hff : env.RestoreFaultFree)
+    (st : State) (hst : st.WF env) (req : Req) (hreq : req.WF) :
+    RolledBack st (handle env st req) ∨
+    (req.methodPut = true ∧ ∃ items, req.body = .payload items ∧ (parse items).isSome = true ∧
+      (∀ p, (handle env st req).disk.get p = expectedGet req.ep items st.disk p) ∧
+      Switched env st (handle env st req) (handle env st req).disk) := by
   unfold handle
   cases hep : req.ep with
   | configuration =>
     simp only
-    cases hb : req.body with
-    | badJson => simp [handleConfiguration, hb, h4, Phase.early]
-    | null => simp [handleConfiguration, hb, h4, Phase.early]
-    | payload items =>
-      by_cases hbk : env.plan .backupRead = true
-      · simp [handleConfiguration, hb, hbk, h5, Phase.early]
-      · have hbk' : env.plan .backupRead = false := by simpa using hbk
-        cases hpr : parse items with
-        | none => simp [handleConfiguration, hb, hbk', hpr, h4, Phase.early]
-        | some parsed => simp [hb, Body.undecodable, hpr] at h
+    unfold handleConfiguration
+    cases hm : req.methodPut with
+    | false => left; simp only [Bool.not_false, if_true]; exact rolledBack_of_unchanged st 405 _ (by decide)
+    | true =>
+      simp only [Bool.not_true, Bool.false_eq_true, if_false]
+      cases hb : req.body with
+      | badJson => left; exact rolledBack_of_unchanged st 400 _ (by decide)
+      | null => left; exact rolledBack_of_unchanged st 400 _ (by decide)
+      | payload items =>
+        simp only
+        by_cases hbk : env.plan .backupRead = true
+        · left; simp only [hbk, if_true]; exact rolledBack_of_unchanged st 500 _ (by decide)
+        · have hbk' : env.plan .backupRead = false := by simpa using hbk
+          simp only [hbk', Bool.false_eq_true, if_false]
+          cases hpr : parse items with
+          | none => left; exact rolledBack_of_unchanged st 400 _ (by decide)
+          | some parsed =>
+            simp only
+            obtain ⟨hw, hpaths⟩ := parse_some items parsed hpr
+            have hdm : Path.defaultMetrics ∉ parsed.map Prod.fst := by
+              rw [hpaths]; simpa [Req.WF, hb, itemsWF] using hreq
+            rcases saveAndReload_outcome env hwf hff st hst req st.disk parsed hdm (fun _ _ => rfl) with h | ⟨hsv, h⟩
+            · exact Or.inl h
+            · right
+              refine ⟨by simp, items, by simp, by simp [hpr], ?_, ?_⟩
+              · intro p
+                rw [h.2.2.1, saveAll_get env parsed st.disk hsv p]
+                unfold overlay expectedGet
+                rw [hw]
+                rfl
+              · rw [h.2.2.1]; exact h
   | applyFlows =>
     simp only
-    cases hb : req.body with
-    | badJson => simp [handleApplyFlows, hb, h4, Phase.early]
-    | null => simp [handleApplyFlows, hb, h4, Phase.early]
-    | payload items =>
-      cases hpr : parse items with
-      | none => simp [handleApplyFlows, hb, hpr, h4, Phase.early]
-      | some parsed => simp [hb, Body.undecodable, hpr] at h
+    unfold handleApplyFlows
+    cases hm : req.methodPut with
+    | false => left; simp only [Bool.not_false, if_true]; exact rolledBack_of_unchanged st 405 _ (by decide)
+    | true =>
+      simp only [Bool.not_true, Bool.false_eq_true, if_false]
+      cases hb : req.body with
+      | badJson => left; exact rolledBack_of_unchanged st 400 _ (by decide)
+      | null => left; exact rolledBack_of_unchanged st 400 _ (by decide)
+      | payload items =>
+        simp only
+        by_cases hbk : env.plan .backupRead = true
+        · left; simp only [hbk, if_true]; exact rolledBack_of_unchanged st 500 _ (by decide)
+        · have hbk' : env.plan .backupRead = false := by simpa using hbk
+          simp only [hbk', Bool.false_eq_true, if_false]
+          cases hpr : parse items with
+          | none => left; exact rolledBack_of_unchanged st 400 _ (by decide)
+          | some parsed =>
+            simp only
+            obtain ⟨hw, hpaths⟩ := parse_some items parsed hpr
+            have hdm : Path.defaultMetrics ∉ parsed.map Prod.fst := by
+              rw [hpaths]; simpa [Req.WF, hb, itemsWF] using hreq
+            by_cases hcl : (cleanAll env st.disk).2 = true
+            · simp only [hcl, Bool.not_true, Bool.false_eq_true, if_false]
+              rcases saveAndReload_outcome env hwf hff st hst req (cleanAll env st.disk).1 parsed hdm
+                (cleanAll_uncovered env hwf st.disk) with h | ⟨hsv, h⟩
+              · exact Or.inl h
+              · right
+                refine ⟨by simp, items, by simp, by simp [hpr], ?_, ?_⟩
+                · intro p
+                  rw [h.2.2.1, saveAll_get env parsed _ hsv p]
+                  unfold overlay expectedGet
+                  rw [hw, cleanAll_get env hwf st.disk hcl p]
+                  rfl
+                · rw [h.2.2.1]; exact h
+            · left
+              have hcl' : (cleanAll env st.disk).2 = false := by simpa using hcl
+              simp only [hcl', Bool.not_false, if_true]
+              exact ⟨by simp,
+                restore_correct env hwf hff.read hff.store st.disk _ (cleanAll_uncovered env hwf st.disk),
+                fun _ => rfl, Or.inl (fun e he => by cases he)⟩
+
+end LunarVerif.C08
+
+namespace LunarVerif.C08
+
+/-! ### From outcomes to the Spec predicate and the property theorems -/
+
+theorem holds_of_rolledBack (probes : List Path) (st : State) (req : Req) (r : Result)
+    (h : RolledBack st r) (hf : finding (observe probes st req r) = none) :
+    holds (observe probes st req r) = true := by
+  obtain ⟨hs, hd, he, hmid⟩ := h
+  have hmid' : ∀ e ∈ r.mid, e = st.engine := by
+    rcases hmid with h | h
+    · exact h
+    · exfalso
+      unfold finding switchedThenFailed at hf
+      simp only [observe, List.length_map] at hf
+      simp [hs, h] at hf
+  unfold holds
+  have hs' : (observe probes st req r).status ≠ 200 := hs
+  rw [if_pos hs']
+  simp only [observe, Bool.and_eq_true, List.all_eq_true, List.mem_map,
+    forall_exists_index, and_imp, forall_apply_eq_imp_iff₂]
+  refine ⟨⟨(sameDisk_iff _ _).mpr hd, decide_eq_true (List.map_congr_left (fun p _ => he p))⟩, ?_⟩
+  intro e hemem
+  rw [hmid' e hemem]
+  exact decide_eq_true rfl
+
+theorem holds_of_switched (env : Env) (probes : List Path) (st : State) (req : Req) (r : Result)
+    (items : List Item) (hb : req.body = .payload items)
+    (hdisk : ∀ p, r.disk.get p = expectedGet req.ep items st.disk p)
+    (h : Switched env st r r.disk) : holds (observe probes st req r) = true := by
+  obtain ⟨hs, _, _, _, _, _, hmid⟩ := h
+  unfold holds
+  have hs' : ¬ (observe probes st req r).status ≠ 200 := by simp [observe, hs]
+  rw [if_neg hs']
+  simp only [Bool.and_eq_true, List.all_eq_true, Bool.or_eq_true, decide_eq_true_eq]
+  constructor
+  · intro m hm
+    simp only [observe, List.mem_map] at hm
+    obtain ⟨e, hemem, rfl⟩ := hm
+    left
+    rw [hmid e hemem]
+    rfl
+  · unfold successDisk
+    simp only [observe, hb, bodyItems, List.all_eq_true, decide_eq_true_eq]
+    intro p _
+    exact hdisk p
+
+theorem partial_holds (env : Env) (hwf : env.WF) (hff : env.RestoreFaultFree) (probes : List Path)
+    (st : State) (hst : st.WF env) (req : Req) (hreq : req.WF)
+    (hnone : finding (observe probes st req (handle env st req)) = none) :
+    holds (observe probes st req (handle env st req)) = true := by
+  rcases handle_outcome env hwf hff st hst req hreq with h | ⟨_, items, hb, _, hd, hsw⟩
+  · exact holds_of_rolledBack probes st req _ h hnone
+  · exact holds_of_switched env probes st req _ items hb hd hsw
+
+theorem wf_preserved (env : Env) (hwf : env.WF) (hff : env.RestoreFaultFree)
+    (st : State) (hst : st.WF env) (req : Req) (hreq : req.WF) :
+    (handle env st req).state.WF env := by
+  rcases handle_outcome env hwf hff st hst req hreq with ⟨_, hd, he, _⟩ | ⟨_, _, _, _, _, hsw⟩
+  · have hext := hwf.ext _ _ hd
+    exact ⟨by rw [Result.state]; simp only; rw [hext.1]; exact hst.valid,
+           by rw [Result.state]; simp only; rw [hext.2]; exact hst.metrics,
+           fun p => by rw [Result.state]; simp only; rw [he p, hst.sync p, hd p]⟩
+  · obtain ⟨_, _, _, heng, hv, hm, _⟩ := hsw
+    exact ⟨hv, hm, fun p => by rw [Result.state]; simp only; rw [heng]; rfl⟩
+
+theorem rollback_aux (env : Env) (hwf : env.WF) (hff : env.RestoreFaultFree)
+    (st : State) (hst : st.WF env) (req : Req) (hreq : req.WF)
+    (hs : (handle env st req).status ≠ 200) :
+    (∀ p, (handle env st req).disk.get p = st.disk.get p) ∧
+    (∀ p, (handle env st req).engine.probe p = st.engine.probe p) := by
+  rcases handle_outcome env hwf hff st hst req hreq with ⟨_, hd, he, _⟩ | ⟨_, _, _, _, _, hsw⟩
+  · exact ⟨hd, he⟩
+  · exact absurd hsw.1 hs
+
+theorem success_aux (env : Env) (hwf : env.WF) (hff : env.RestoreFaultFree)
+    (st : State) (hst : st.WF env) (req : Req) (hreq : req.WF)
+    (hs : (handle env st req).status = 200) :
+    req.methodPut = true ∧ (handle env st req).phase = .ok ∧
+    (handle env st req).engine = .ready (handle env st req).disk ∧
+    (∀ e ∈ (handle env st req).mid, e = st.engine) ∧
+    ∃ items, req.body = .payload items ∧ (parse items).isSome = true ∧
+      ∀ p, (handle env st req).disk.get p = expectedGet req.ep items st.disk p := by
+  rcases handle_outcome env hwf hff st hst req hreq with ⟨hne, _⟩ | ⟨hput, items, hb, hp, hd, hsw⟩
+  · exact absurd hs hne
+  · exact ⟨hput, hsw.2.1, hsw.2.2.2.1, hsw.2.2.2.2.2.2, items, hb, hp, hd⟩
+
+/-! ### Rejections before the first write (any environment, any state) -/
+
+def Phase.early : Phase → Bool
+  | .method | .decode | .nodata | .backup | .parse => true
+  | _ => false
+
+theorem saveAndReload_not_early (env : Env) (st : State) (req : Req) (b d1 : Disk)
+    (parsed : List (Path × Bytes)) : (saveAndReload env st req b d1 parsed).phase.early = false := by
+  unfold saveAndReload
+  simp only
+  split
+  · rfl
+  · split <;> rfl
 
 theorem early_handle (env : Env) (st : State) (req : Req)
     (h : (handle env st req).phase.early = true) :
@@ -826,131 +679,109 @@ theorem early_handle (env : Env) (st : State) (req : Req)
   cases hep : req.ep with
   | configuration =>
     simp only [hep] at h ⊢
-    exact early_configuration env st req h
+    unfold handleConfiguration at h ⊢
+    cases hm : req.methodPut with
+    | false => simp
+    | true =>
+      simp only [hm, Bool.not_true, Bool.false_eq_true, if_false] at h ⊢
+      cases hb : req.body with
+      | badJson => simp
+      | null => simp
+      | payload items =>
+        simp only [hb] at h ⊢
+        by_cases hbk : env.plan .backupRead = true
+        · simp [hbk]
+        · have hbk' : env.plan .backupRead = false := by simpa using hbk
+          simp only [hbk', Bool.false_eq_true, if_false] at h ⊢
+          cases hpr : parse items with
+          | none => simp
+          | some parsed =>
+            simp only [hpr, saveAndReload_not_early] at h
+            cases h
   | applyFlows =>
     simp only [hep] at h ⊢
-    exact early_applyFlows env st req h
-
-/-- The shape of every request answered 200. -/
-theorem success_char (env : Env) (hco : env.CleanOrderOk) (st : State) (req : Req)
-    (hs : (handle env st req).status = 200) :
-    req.methodPut = true ∧ (handle env st req).phase = .ok ∧
-    (handle env st req).engine = .ready (handle env st req).disk ∧
-    ∃ items, req.body = .payload items ∧ (parse items).isSome = true ∧
-      (metricsMismatch (observe [] st req (handle env st req)) = false →
-        ∀ p, (handle env st req).disk.get p = expectedGet req.ep items st.disk p) := by
-  have hput : req.methodPut = true := by
+    unfold handleApplyFlows at h ⊢
     cases hm : req.methodPut with
-    | true => rfl
-    | false =>
-      exfalso
-      have : ∀ r : Result, r = handle env st req → r.status = 405 := by
-        intro r hr
-        subst hr
-        unfold handle handleConfiguration handleApplyFlows statusOf
-        simp only [hm]
-        cases req.ep <;> cases req.body <;> simp <;> (repeat' split) <;> rfl
-      rw [this _ rfl] at hs
-      cases hs
-  have hst : ∀ s, statusOf req s = s := statusOf_put req hput
-  refine ⟨hput, ?_⟩
-  unfold handle at hs ⊢
-  cases hep : req.ep with
-  | configuration =>
-    simp only [hep] at hs ⊢
-    cases hb : req.body with
-    | badJson => simp [handleConfiguration, hb, hst] at hs
-    | null => simp [handleConfiguration, hb, hst] at hs
-    | payload items =>
-      by_cases hbk : env.plan .backupRead = true
-      · simp [handleConfiguration, hb, hst, hbk] at hs
-      · have hbk' : env.plan .backupRead = false := by simpa using hbk
-        cases hpr : parse items with
-        | none => simp [handleConfiguration, hb, hst, hbk', hpr] at hs
-        | some parsed =>
-          by_cases hsv : (saveAll env st.disk parsed).2 = true
-          · by_cases hok : (reload env 1 req.gate (saveAll env st.disk parsed).1 st.engine []).ok = true
-            · have hr : handleConfiguration env st req =
-                  ⟨200, .ok, (saveAll env st.disk parsed).1,
-                   (reload env 1 req.gate (saveAll env st.disk parsed).1 st.engine []).engine,
-                   (reload env 1 req.gate (saveAll env st.disk parsed).1 st.engine []).mid⟩ := by
-                simp [handleConfiguration, hb, hst, hbk', hpr, hsv, hok]
-              rw [hr]
-              refine ⟨rfl, reload_ok_engine env 1 _ _ _ _ hok, items, rfl, by simp [hpr], ?_⟩
-              intro hmm p
-              have hum := no_mismatch_configuration [] st req _ items hb hep hmm
-              obtain ⟨hw, hpaths⟩ := parse_some items parsed hpr
-              rw [← hpaths] at hum
-              simp only
-              rw [saveAll_get env parsed st.disk hum hsv p]
-              unfold overlay expectedGet
-              rw [hw]
-              rfl
-            · simp [handleConfiguration, hb, hst, hbk', hpr, hsv, hok] at hs
-          · simp [handleConfiguration, hb, hst, hbk', hpr, hsv] at hs
-  | applyFlows =>
-    simp only [hep] at hs ⊢
-    cases hb : req.body with
-    | badJson => simp [handleApplyFlows, hb, hst] at hs
-    | null => simp [handleApplyFlows, hb, hst] at hs
-    | payload items =>
-      cases hpr : parse items with
-      | none => simp [handleApplyFlows, hb, hst, hpr] at hs
-      | some parsed =>
-        by_cases hcl : (cleanAll env st.disk).2 = true
-        · by_cases hsv : (saveAll env (cleanAll env st.disk).1 parsed).2 = true
-          · by_cases hok : (reload env 1 req.gate (saveAll env (cleanAll env st.disk).1 parsed).1
-                st.engine []).ok = true
-            · have hr : handleApplyFlows env st req =
-                  ⟨200, .ok, (saveAll env (cleanAll env st.disk).1 parsed).1,
-                   (reload env 1 req.gate (saveAll env (cleanAll env st.disk).1 parsed).1 st.engine []).engine,
-                   (reload env 1 req.gate (saveAll env (cleanAll env st.disk).1 parsed).1 st.engine []).mid⟩ := by
-                simp [handleApplyFlows, hb, hst, hpr, hcl, hsv, hok]
-              rw [hr]
-              refine ⟨rfl, reload_ok_engine env 1 _ _ _ _ hok, items, rfl, by simp [hpr], ?_⟩
-              intro hmm p
-              have hum := no_mismatch_applyFlows [] st req _ items hb hep hmm
-              obtain ⟨hw, hpaths⟩ := parse_some items parsed hpr
-              rw [← hpaths] at hum
-              simp only
-              rw [saveAll_get env parsed _ (Or.inl hum) hsv p]
-              unfold overlay expectedGet
-              rw [hw, cleanAll_get env hco st.disk hcl p]
-              rfl
-            · simp [handleApplyFlows, hb, hst, hpr, hcl, hsv, hok] at hs
-          · simp [handleApplyFlows, hb, hst, hpr, hcl, hsv] at hs
-        · simp [handleApplyFlows, hb, hst, hpr, hcl] at hs
+    | false => simp
+    | true =>
+      simp only [hm, Bool.not_true, Bool.false_eq_true, if_false] at h ⊢
+      cases hb : req.body with
+      | badJson => simp
+      | null => simp
+      | payload items =>
+        simp only [hb] at h ⊢
+        by_cases hbk : env.plan .backupRead = true
+        · simp [hbk]
+        · have hbk' : env.plan .backupRead = false := by simpa using hbk
+          simp only [hbk', Bool.false_eq_true, if_false] at h ⊢
+          cases hpr : parse items with
+          | none => simp
+          | some parsed =>
+            simp only [hpr] at h
+            by_cases hcl : (cleanAll env st.disk).2 = true
+            · simp only [hcl, Bool.not_true, Bool.false_eq_true, if_false, saveAndReload_not_early] at h
+            · have hcl' : (cleanAll env st.disk).2 = false := by simpa using hcl
+              simp [hcl', Phase.early] at h
 
-end LunarVerif.C08
+/-- A body that cannot be decoded. -/
+def Body.undecodable : Body → Bool
+  | .badJson => true
+  | .null => true
+  | .payload items => (parse items).isNone
 
-namespace LunarVerif.C08
+theorem undecodable_handle (env : Env) (st : State) (req : Req) (h : req.body.undecodable = true) :
+    (handle env st req).status ≠ 200 ∧ (handle env st req).phase.early = true := by
+  unfold handle
+  cases hep : req.ep <;> simp only <;>
+  (first | unfold handleConfiguration | unfold handleApplyFlows) <;>
+  (cases hm : req.methodPut with
+   | false => simp [Phase.early]
+   | true =>
+     simp only [Bool.not_true, Bool.false_eq_true, if_false]
+     cases hb : req.body with
+     | badJson => simp [Phase.early]
+     | null => simp [Phase.early]
+     | payload items =>
+       simp only
+       by_cases hbk : env.plan .backupRead = true
+       · simp [hbk, Phase.early]
+       · have hbk' : env.plan .backupRead = false := by simpa using hbk
+         simp only [hbk', Bool.false_eq_true, if_false]
+         cases hpr : parse items with
+         | none => simp [Phase.early]
+         | some parsed => simp [hb, Body.undecodable, hpr] at h)
 
-/-- Steps of `Restore()` and of the reload that follows it. -/
-def Step.inRestore : Step → Bool
-  | .restoreRead | .restoreStore _ => true
-  | .validate r | .initialize r | .haproxy r | .metrics r => decide (r = 2)
-  | _ => false
+theorem non_put_handle (env : Env) (st : State) (req : Req) (h : req.methodPut = false) :
+    (handle env st req).status = 405 ∧ (handle env st req).phase = .method := by
+  unfold handle handleConfiguration handleApplyFlows
+  cases req.ep <;> simp [h]
 
 theorem single_fault_restoreFaultFree (env : Env) (k : Step) (hk : env.plan = fun s => decide (s = k))
     (hnr : k.inRestore = false) : env.RestoreFaultFree := by
   constructor <;> (try intro p) <;> rw [hk] <;> simp only [decide_eq_false_iff_not] <;>
     intro e <;> subst e <;> simp [Step.inRestore] at hnr
 
-/-- A concrete environment for the witnesses: a file is rejected by the dry run / the metrics loader
-    iff its content is the text `bad`; HAProxy always has endpoints; at most one injected fault. -/
+/-- A concrete environment for the witnesses and examples: a file is rejected by the dry run / the
+    metrics loader iff its content is the text `bad`; HAProxy always has endpoints; at most one
+    injected fault; maps ranged over in list order. -/
 def demoEnv (fault : Option Step) : Env :=
   { plan := fun s => match fault with | some f => decide (s = f) | none => false,
-    validates := fun d => d.all (fun e => e.1 = .userMetrics || e.1 = .defaultMetrics || e.2 != "bad"),
+    validates := fun d => [Path.flow "a.yaml", .flow "b.yaml", .flow "c.yaml", .gateway].all
+      (fun p => d.get p != some "bad"),
     metricsOk := fun d => match d.get .userMetrics with
       | some c => c != "bad"
       | none => match d.get .defaultMetrics with
         | some c => c != "bad"
         | none => false,
     hasEndpoints := fun _ => true,
-    cleanOrder := [.gateway, .userMetrics] }
+    cleanOrder := [.gateway, .userMetrics],
+    restoreOrder := id }
 
-theorem demoEnv_cleanOrderOk (f : Option Step) : (demoEnv f).CleanOrderOk := by
-  intro p
-  cases p <;> simp [demoEnv]
+theorem demoEnv_wf (f : Option Step) : (demoEnv f).WF := by
+  refine ⟨?_, fun _ _ => Iff.rfl, ?_⟩
+  · intro p; cases p <;> simp [demoEnv]
+  · intro a b h
+    simp only [demoEnv, h]
+    exact ⟨trivial, trivial⟩
 
 end LunarVerif.C08
